@@ -1441,6 +1441,43 @@ class Inliner:
             site = self._site(s.value.value, fq, mn, cls, chain)
             if site and not _has_return(site[2][0]):
                 return self._inline(s, s.value.value, site, mode=("gen", None))
+        # (b0) x = list(helper(args))  with helper a generator: the list is built where the helper yields
+        if isinstance(s, ast.Assign) and len(s.targets) == 1 and isinstance(s.value, ast.Call) and isinstance(s.value.func, ast.Name) and s.value.func.id == "list" and len(s.value.args) == 1 and not s.value.keywords and isinstance(s.value.args[0], ast.Call):
+            inner = s.value.args[0]
+            site = self._site(inner, fq, mn, cls, chain)
+            if site:
+                q, recv, (hfn, hcls, hfunc, hmn) = site
+                ys = [n for n in _walk_same_function(hfn) if isinstance(n, (ast.Yield, ast.YieldFrom))]
+                if ys and all(isinstance(y_, ast.Yield) and y_.value is not None for y_ in ys) and not any(r_.value is not None for r_ in _returns_in(hfn)) and not _has_return(hfn):
+                    body, exprmap, pre, ok = self._bind(inner, hfn, recv, q)
+                    if ok and all(isinstance(getattr(p_, "_parent_stmt", None), type(None)) for p_ in []):
+                        self.counter += 1
+                        tmp = s.targets[0].id if isinstance(s.targets[0], ast.Name) and not any(isinstance(n_, ast.Name) and n_.id == s.targets[0].id for b_ in body for n_ in ast.walk(b_)) else "_lst%d" % self.counter
+
+                        class Y(ast.NodeTransformer):
+                            bad = False
+
+                            def visit_Expr(self_, node):
+                                if isinstance(node.value, ast.Yield):
+                                    call = ast.Call(func=ast.Attribute(value=ast.Name(id=tmp, ctx=ast.Load()), attr="append", ctx=ast.Load()), args=[node.value.value], keywords=[])
+                                    return ast.fix_missing_locations(ast.copy_location(ast.Expr(value=call), node))
+                                return node
+
+                            def visit_Yield(self_, node):
+                                Y.bad = True
+                                return node
+
+                            def visit_FunctionDef(self_, node):
+                                return node
+                        y = Y()
+                        body = [y.visit(b_) for b_ in body]
+                        if not Y.bad:
+                            init = ast.fix_missing_locations(ast.copy_location(ast.Assign(targets=[ast.Name(id=tmp, ctx=ast.Store())], value=ast.List(elts=[], ctx=ast.Load())), s))
+                            out = pre + [init] + body
+                            if not (isinstance(s.targets[0], ast.Name) and s.targets[0].id == tmp):
+                                out.append(ast.fix_missing_locations(ast.copy_location(ast.Assign(targets=s.targets, value=ast.Name(id=tmp, ctx=ast.Load())), s)))
+                            self._note(q, fq)
+                            return out
         # (b) assignment from a call
         if isinstance(s, ast.Assign) and len(s.targets) == 1 and isinstance(s.value, ast.Call):
             site = self._site(s.value, fq, mn, cls, chain)
